@@ -45,7 +45,7 @@ var Check = &run.Check{
 		"and line / block / hash comments generated from a grammar: empty, blanks only, one character, plain text, marker later in the text (after a word, glued to 1-2 characters, after punctuation, mid-line of a later block line, directly after a character that opens another kind of comment: `//# FIXME`, `#/ TODO`, `#* TODO`, `#// todo`, `/*# todo */`, `/*/ fixme */`), " +
 		"and marker comments = [blanks] (TODO|FIXME in 10 letter-case variants) followed by nothing | ':' | blank msg | ':' msg | ': ' msg | '(name)' | '(name):' | '(name) ' msg | '(name): ' msg | '(name):' msg, " +
 		"block comments optionally multi-line with or without ' * ' decoration, 1 in 4 of the multi-line-capable ones with 1-3 line breaks between `/*` and the marker word (start line = opener's line); crash-only marker comments whose text after the marker (and optional colon/blanks) opens a '(' that is never closed in the comment (`// TODO (rework the`, `/* FIXME: (half */`, `# todo(`; entry optional, a panic is a violation); comments alone on a line, after code (glued or not), between tokens, two on one line; " +
-		"filter = subset number (index mod 32) of the 5-extension list; executed through todo.TodoApp.AnalysisPath(dir, exts) in-process (1 in 6 with the directory named dir/zzcwd/.., 1 in 6 dir/) and through `coca todo -p DIR -e exts` (simple-todos.json parsed strictly, count line and table) for every Nth case, DIR spelled in rotation abs | abs/ | rel | ./rel | rel/ | . | .. | sub/.. | ../src from the matching working directory, every second CLI case preceded by a `coca todo` run over a larger tree in the SAME working directory (stale coca_reporter); files also live under dot-directories (.github/, .config/tool/, a/.hidden/) and carry dot names (.eslintrc.js); " +
+		"filter = subset number (index mod 32) of the 5-extension list, 1 in 4 with an entry repeated and/or a two-part extension added (.d.ts .spec.ts .min.js .spec.js .test.py .pb.go .gen.java; 1 in 5 of the selected-extension files carries one), a file named by two entries is one file; executed through todo.TodoApp.AnalysisPath(dir, exts) in-process (1 in 6 with the directory named dir/zzcwd/.., 1 in 6 dir/) and through `coca todo -p DIR -e exts` (simple-todos.json parsed strictly, count line and table) for every Nth case, DIR spelled in rotation abs | abs/ | rel | ./rel | rel/ | . | .. | sub/.. | ../src from the matching working directory, every second CLI case preceded by a `coca todo` run over a larger tree in the SAME working directory (stale coca_reporter); files also live under dot-directories (.github/, .config/tool/, a/.hidden/) and carry dot names (.eslintrc.js); " +
 		"oracle: multiset of (file, start line, assignee, message with '*' and blank runs collapsed) == planted marker comments of the selected files; " +
 		"non-trivial = at least 2 planted marker comments in selected files and at least one decoy carrying the marker word (literal, later mention, identifier) in a selected file; " +
 		"distinct = hash of (per file: extension + sequence of element shapes, subset number, boundary)",
@@ -157,11 +157,51 @@ func runCase(c *run.Ctx, o *run.Outcome) {
 	mask := c.Index % 32
 	exts := subset(mask, r.Fork())
 	tree := commentgen.Generate(r.Fork(), r.Range(2, 8))
-	useCLI := c.CocaBin != "" && mask != 0 && c.Index%cliEvery(c.Tier) == 0
+	// 1 in 4 filters also lists an extension twice and/or a two-part extension (.d.ts, .min.js, ...) next to or instead
+	// of its last part: a file that two entries name is still one file
+	if fr := r.Fork(); fr.Chance(1, 4) {
+		insert := func(e string) {
+			at := fr.Intn(len(exts) + 1)
+			exts = append(exts[:at], append([]string{e}, exts[at:]...)...)
+		}
+		dup := len(exts) > 0 && fr.Bool()
+		if dup {
+			insert(exts[fr.Intn(len(exts))])
+		}
+		if !dup || fr.Bool() {
+			// prefer a two-part extension that a file of this tree carries
+			var present []string
+			for i := range tree.Files {
+				for _, ce := range commentgen.CompoundExts {
+					if tree.Files[i].Ext == ce {
+						present = append(present, ce)
+					}
+				}
+			}
+			ce := fr.Pick(commentgen.CompoundExts)
+			if len(present) > 0 && fr.Chance(3, 4) {
+				ce = fr.Pick(present)
+			}
+			insert(ce)
+		}
+	}
+	twice, overlap := 0, 0
+	for i, a := range exts {
+		for j, b := range exts {
+			if i < j && a == b {
+				twice = 1
+			} else if i != j && a != b && strings.HasSuffix(a, b) {
+				overlap = 1
+			}
+		}
+	}
+	o.Count("filters_listing_an_extension_twice", twice)
+	o.Count("filters_with_one_entry_a_suffix_of_another", overlap)
+	useCLI := c.CocaBin != "" && len(exts) > 0 && c.Index%cliEvery(c.Tier) == 0
 
 	dir := c.Scratch()
 	src := filepath.Join(dir, "src")
-	truth := &oracle.TodoTruth{Selected: map[string]bool{}, Unselected: map[string]bool{}}
+	truth := &oracle.TodoTruth{Selected: map[string]bool{}, Unselected: map[string]bool{}, NamedTwice: map[string]bool{}}
 	markerDecoys := 0
 	required := 0
 	var sampleFile *commentgen.File
@@ -199,6 +239,14 @@ func runCase(c *run.Ctx, o *run.Outcome) {
 		}
 		truth.Selected[f.Rel] = true
 		o.Count("files_selected", 1)
+		if commentgen.FilterHits(f, exts) >= 2 {
+			truth.NamedTwice[f.Rel] = true
+			o.Count("selected_files_named_by_two_filter_entries", 1)
+			o.Count("marker_comments_in_files_named_by_two_filter_entries", len(f.Planted))
+		}
+		if len(f.Ext) > 1 && strings.Count(f.Ext, ".") == 2 && f.Ext != ".java.bak" {
+			o.Count("selected_files_with_two_part_extension", 1)
+		}
 		if strings.HasPrefix(f.Rel, ".") || strings.Contains(f.Rel, "/.") {
 			o.Count("selected_files_under_dot_directories_or_dot_named", 1)
 			o.Count("marker_comments_under_dot_paths", len(f.Planted))
